@@ -10,18 +10,34 @@ import (
 	"github.com/platinummonkey/go-concurrency-limits/limit"
 )
 
-// blockUntilSignaled will wait for context cancellation, an unblock signal or timeout
-// This method will return true if we were successfully signalled.
-func blockUntilSignaled(ctx context.Context, c *sync.Cond, timeout time.Duration) bool {
+// subscribe registers for the next signal on c and returns a channel that is closed when it arrives.
+// It returns only once the waiting goroutine holds c.L and is about to wait, so a signaller that
+// passes through c.L before signalling (see DelegateListener) cannot slip in unnoticed.
+func subscribe(c *sync.Cond) <-chan struct{} {
 	ready := make(chan struct{})
+	started := make(chan struct{})
 
 	go func() {
 		c.L.Lock()
 		defer c.L.Unlock()
+		close(started)
 		c.Wait()
 		close(ready)
 	}()
 
+	<-started
+	return ready
+}
+
+// blockUntilSignaled will wait for context cancellation, an unblock signal or timeout
+// This method will return true if we were successfully signalled.
+func blockUntilSignaled(ctx context.Context, c *sync.Cond, timeout time.Duration) bool {
+	return waitReady(ctx, subscribe(c), timeout)
+}
+
+// waitReady will wait for context cancellation, the subscription's signal or timeout
+// This method will return true if we were successfully signalled.
+func waitReady(ctx context.Context, ready <-chan struct{}, timeout time.Duration) bool {
 	if timeout > 0 {
 		// use NewTimer over time.After so that we don't have to
 		// wait for the timeout to elapse in order to release memory
@@ -99,7 +115,17 @@ func (l *BlockingLimiter) tryAcquire(ctx context.Context) (core.Listener, bool) 
 		// - A timeout
 		// - The context is cancelled
 		l.logger.Debugf("Blocking waiting for release or timeout ctx=%v", ctx)
-		if shouldAcquire := blockUntilSignaled(ctx, l.c, l.timeout); shouldAcquire {
+		// Subscribe to releases first and then try once more: a token released between the
+		// failed attempt above and the subscription is found by the retry, a later one wakes
+		// the subscription. (Without the retry such a release was lost and the caller slept
+		// until the next release or timeout.)
+		ready := subscribe(l.c)
+		listener, ok = l.delegate.Acquire(ctx)
+		if ok && listener != nil {
+			l.logger.Debugf("delegate returned a listener ctx=%v", ctx)
+			return listener, true
+		}
+		if shouldAcquire := waitReady(ctx, ready, l.timeout); shouldAcquire {
 			listener, ok := l.delegate.Acquire(ctx)
 			if ok && listener != nil {
 				l.logger.Debugf("delegate returned a listener ctx=%v", ctx)
